@@ -224,6 +224,20 @@ class G:
         if k < 0.64:
             if not conditional:
                 self.pending = ("n", v, "int")
+            k2 = r.random()
+            if k2 < 0.2 and not conditional:
+                # the VALUE of counter(): the count after this click, compared with a number
+                n = r.choice([1, 2, 5])
+                tgt = n * r.choice([1, 2, 3])
+                return (f"counter.v{v}({n}) == {tgt}", f"(CounterEq {v} {n} {tgt})")
+            if k2 < 0.35:
+                # @v = count.d(cond): counts, on every evaluated line, the lines per answer of cond; not an onmatch assignment
+                w = self.next_var
+                self.next_var += 1
+                b, qb = self.bexp(1)
+                while qb.startswith("(BBare") or qb.startswith("(BVarSet"):
+                    b, qb = self.bexp(1)
+                return (f"@v{v} = count.d{w}({b})", f"(CountIf {v} {w} {qb})")
             if r.random() < 0.4:      # the increment is an expression evaluated on every line
                 e, qe, _ = self.nexp(1, allow_lit=False)
                 return (f"counter.v{v}({e})", f"(CounterE {v} {qe})")
@@ -256,7 +270,7 @@ class G:
                 if isinstance(qa, tuple):
                     out = (a, qa)          # one text component, several model components (all vote yes)
                 else:
-                    out = (a, f"(CAct (Agg {qa}))" if qa.startswith("(AssignK") else f"(CAgg {qa})")
+                    out = (a, f"(CAct (Agg {qa}))" if (qa.startswith("(AssignK") or qa.startswith("(CountIf")) else f"(CAgg {qa})")
             else:
                 b, qb = self.bexp(1)
                 a, qa = self.agg(True)
